@@ -21,7 +21,8 @@ RULE = ('Valid powertrains (as C01, optional duty-cycle histories; a third are s
         'stopped run must be bit-identical to the prefix 0..k of the un-stopped run, the comparison recomputed from '
         'the recorded series is false at instants 1..k-1 and true at k, and nothing is recorded after k; if it never '
         'holds the two runs are identical. In a quarter of the cases the stopped run is followed by reset + rerun with '
-        'the same StopCondition object, which must stop at the same instant. Non-trivial = the run stopped strictly inside (1 < k < n); distinct = '
+        'the same StopCondition object, which must stop at the same instant; in another sixth only the continuation of a '
+        'two-run history receives the stop condition (it may already hold at the junction). Non-trivial = the run stopped strictly inside (1 < k < n); distinct = '
         'canonical JSON.')
 ASSUMPTIONS = ['cases where the reading comes within 1e-9 (relative to the series scale) of the threshold at or before '
                'the expected stop are not judged, unless the tie is exact (same unit, identical number)']
@@ -83,13 +84,28 @@ def check(case) -> Result:
             res.classes += ('mixed-sample-units',)
             return res
         truth = [bool(_cmp(op, r, thr_pair[0])) for r in raw]
-    kexp = next((k for k in range(1, u.n) if truth[k]), None)
+    # the stop condition may be handed to the continuation only: it is then evaluated at every instant the continuation
+    # computes, the first of which has index n_first (the junction instant itself was computed by the earlier run)
+    from_run = st_.get('from_run', 0) if len([o for o in base['history'] if o['op'] == 'run']) > 1 else 0
+    k_first = 1
+    if from_run:
+        b0, t0, e0 = S.simulate(dict(base, history=base['history'][:1]))
+        k_first = t0[-1].n if t0 else 1
+    kexp = next((k for k in range(k_first, u.n) if truth[k]), None)
     upto = (kexp + 1) if kexp is not None else u.n
-    if not tie_exact and np.any(margin[1:upto] <= 1e-9):
+    if not tie_exact and np.any(margin[k_first:upto] <= 1e-9):
         res.classes += ('near-threshold-discarded',)
         return res
     stopped_case = dict(base, stop={'sensor': sensor, 'target': target, 'op': op, 'threshold': thr_pair})
-    stopped_case['history'] = [dict(o, stop=True) if o['op'] == 'run' else o for o in base['history']]
+    runs_seen = -1
+    hist = []
+    for o in base['history']:
+        if o['op'] == 'run':
+            runs_seen += 1
+            hist.append(dict(o, stop=runs_seen >= from_run))
+        else:
+            hist.append(o)
+    stopped_case['history'] = hist
     if st_.get('rerun'):
         # the same StopCondition object serves a second epoch: run (stop), reset, re-apply initial conditions, run (stop)
         stopped_case['history'] = stopped_case['history'] + [{'op': 'reset', 'reinit': True}] + \
@@ -102,7 +118,7 @@ def check(case) -> Result:
     if es is not None:
         res.bad(f'C16/stopped-run-raises/{type(es).__name__}', f'stop {stopped_case["stop"]}: {type(es).__name__}: {es}')
         return res
-    s = ts[0]
+    s = ts[len(base['history']) - 1] if len(ts) >= len(base['history']) else ts[-1]
     if st_.get('rerun') and len(ts) >= 3:
         s2 = ts[-1]
         if s2.n != s.n or not np.array_equal(s2.t, s.t) or any(
@@ -141,9 +157,11 @@ def check(case) -> Result:
         # the comparison recomputed from the stopped run's own series
         own = s.get(target, var)
         if kexp is not None and not tie_exact and own is not None and len(own) == s.n:
-            if any(_cmp(op, own[k], thr_si) for k in range(1, s.n - 1)) or not _cmp(op, own[s.n - 1], thr_si):
+            if any(_cmp(op, own[k], thr_si) for k in range(k_first, s.n - 1)) or not _cmp(op, own[s.n - 1], thr_si):
                 res.bad(f'C16/comparison-inconsistent/{op}', f'{desc}: recorded readings {list(map(float, own))}')
     res.nontrivial = kexp is not None and 1 < kexp < u.n - 1
+    if from_run:
+        res.classes += ('stop-on-continuation-only', 'true-at-junction' if truth[k_first - 1] else 'false-at-junction')
     res.classes += (f'sensor:{sensor}', f'op:{op}', 'exact-tie' if tie_exact else 'generic',
                     'stops-inside' if res.nontrivial else ('never' if kexp is None else 'edge'))
     return res
@@ -169,6 +187,15 @@ def s_case(draw, max_len=5, max_steps=40):
     if draw(st.integers(0, 3)) == 0:
         spec['rerun'] = True
         spec['new_solver'] = draw(st.booleans())
+    elif draw(st.integers(0, 2)) == 0:
+        # run, then a continued run, and only the continuation receives the stop condition (which may already hold at
+        # the junction: it must then stop the continuation at its first computed instant)
+        from vp import model as M
+        mdl = M.Model(case)
+        case['history'] = case['history'][:1] + [G.s_run(draw, mdl, max_steps=max(3, max_steps // 2))]
+        if case.get('control'):
+            case['history'][1]['control'] = True
+        spec['from_run'] = 1
     case['stop_spec'] = spec
     return case
 
